@@ -194,11 +194,22 @@ Proof.
   destruct (filter (fun t => mem t (recs (cur x))) (trash (cur x))); [apply WB_ret|]. wb.
 Qed.
 
+Definition xfer_ds (d : N) : act := fun s => if mem d (recs (cur s)) then (s, Normal) else
+  (ev ret ;; ev (upd (fun s => set_fs (fset d (src_content d) (fs s)) s)) ;; reg_undo (URm d) ;; ev ret ;; ev (stored_rows d)) s.
+
+Lemma WB_xfer_ds : forall d, WB (xfer_ds d).
+Proof. intro d. unfold xfer_ds. apply (WB_if (fun s => mem d (recs (cur s))) ret); [apply WB_ret | wb]. Qed.
+
+Lemma do_transfer_unfold : forall d, do_transfer shipped d =
+  butler_txn shipped (ev (guard (fun s => negb (has_ds d s) || mem d (xf (cur s)))) ;;
+                      upd (on_cur (fun x => up_xf (add d) (up_ds (add d) x))) ;; with_ds shipped (xfer_ds d)).
+Proof. reflexivity. Qed.
+
 Lemma WB_exec_op : forall o, WB (exec_op shipped o).
 Proof.
-  destruct o; simpl; unfold do_put, do_ingest, do_purge, do_unstore, butler_txn;
+  destruct o; simpl; try rewrite do_transfer_unfold; unfold do_put, do_ingest, do_purge, do_unstore, butler_txn;
     repeat first
-    [ apply WB_do_trash | apply WB_do_empty_trash
+    [ apply WB_do_trash | apply WB_do_empty_trash | apply WB_xfer_ds
     | apply WB_bind | apply WB_ev | apply WB_ev_absorb | apply WB_ret | apply WB_raise | apply WB_guard | apply WB_swallow
     | apply WB_with_reg | apply WB_with_ds | apply WB_reg_undo | apply WB_load_dc | apply WB_stored_rows
     | apply WB_remove_ds | apply WB_transfer | apply WB_del_files
@@ -272,6 +283,14 @@ Proof.
   intros m d s s' h H C. simpl in H. unfold do_ingest in H. eapply butler_txn_atomic; eauto.
   repeat first [ apply WB_bind | apply WB_ev | apply WB_ret | apply WB_guard | apply WB_with_ds | apply WB_transfer
                | apply WB_stored_rows | (apply WB_upd; keeps) ].
+Qed.
+
+Lemma transfer_registry_atomic_p : forall d s s' h,
+  exec_op shipped (Transfer d) s = (s', Raised h) -> (cfault s' = false \/ sql s = []) -> cur s' = cur s.
+Proof.
+  intros d s s' h H C. simpl in H. rewrite do_transfer_unfold in H. eapply butler_txn_atomic; eauto.
+  repeat first [ apply WB_bind | apply WB_ev | apply WB_ret | apply WB_guard | apply WB_with_ds | apply WB_xfer_ds
+               | (apply WB_upd; keeps) ].
 Qed.
 
 (* the stacks after ANY program, outcome and fault: SQL blocks all closed again, datastore pointer back where it was *)
